@@ -19,7 +19,7 @@ ASSUMPTIONS = c01.ASSUMPTIONS + [
     "request syntax garbage (tag[x], unbalanced braces) is outside the statement and not generated",
     "a failed request may carry its name with or without the {n} suffix",
 ]
-FLOORS = {"quick": {"mixed": 300, "has-invalid": 600, "truthiness": 1000, "forced": 100},
+FLOORS = {"quick": {"mixed": 300, "has-invalid": 600, "truthiness": 1000, "forced": 100, "forced-nth.fragment": 60},
           "thorough": {"mixed": 5000, "has-invalid": 10000, "forced": 1500}}
 
 
@@ -36,7 +36,7 @@ def check_case(case):
         cls.add("forced-nth")
         discs = [d for d in discs if ".valid-fails." not in d.bucket]
         discs += [Disc("forced-nth." + d.bucket, d.detail) for d in run.of("C01", "C02")
-                  if d.bucket.startswith(("write.content", "read.value", "read.type"))]   # a refused transfer may be partly applied
+                  if d.bucket.startswith(("write.content", "read.value", "read.type", "read.repeat"))]   # a refused transfer may be partly applied
         if any("packet" in f.get("when", {}) for f in case["forced"]) and any(e.get("service") == 0x0A and e.get("status") not in (0, None) for e in run.tgt.log):
             cls.add("forced-packet.hit")
         executed_forced = [r for r in run.tgt.svc_log if r.get("forced")]
@@ -82,6 +82,8 @@ def plan(tier):
     for _ in range(n):
         jobs.append({"part": "read", "examples": per})
         jobs.append({"part": "write", "examples": per})
+    for i in range(4 if tier == "quick" else 16):
+        jobs.append({"part": ["read", "write"][i % 2], "fragfail": True, "examples": 100 if tier == "quick" else 1200})
     jobs.append({"part": "tag", "examples": 2000 if tier == "quick" else 50000})
     for _ in range(4 if tier == "quick" else 16):
         jobs.append({"part": "wrap", "examples": 40 if tier == "quick" else 400})
@@ -104,7 +106,7 @@ def run_job(ctx, job):
         hyp_search(ctx, "tag", st.tuples(st.text(max_size=4), VALUES, st.one_of(st.none(), st.text(max_size=4)), ERRORS),
                    lambda f: (check_tag(f), True, ["truthiness"]), job["examples"])
         return
-    hyp_search(ctx, "case", c01.cases(job["part"], invalid=True, many=True), check_case, job["examples"], sample_of=c01.sample_of)
+    hyp_search(ctx, "case", c01.cases(job["part"], invalid=True, many=True, fragfail=job.get("fragfail", False)), check_case, job["examples"], sample_of=c01.sample_of)
 
 
 def replay(ctx, kind, case):
